@@ -224,9 +224,13 @@ def isolation_contract(env, factory, sibling, const=None, setup_model=None, pre=
         if pre:
             pre(env, hS)
         insS = hS.inputs(tag="Q.", const=const)
-        hS.compute(insS)
-        if ana_keys:
-            hS.partials(insS)
+        S.PATH.mute = True                                      # which branch the other instances take is immaterial
+        try:
+            hS.compute(insS)
+            if ana_keys:
+                hS.partials(insS)
+        finally:
+            S.PATH.mute = False
         try:
             oA = hA.compute(ins)
             # ... and a twin of A itself (same class, same configuration, as in a second Problem of the same script) is
@@ -235,9 +239,13 @@ def isolation_contract(env, factory, sibling, const=None, setup_model=None, pre=
             if pre:
                 pre(env, hT)
             insT = hT.inputs(tag="Q2.", const=const)
-            hT.compute(insT)
-            if ana_keys:
-                hT.partials(insT)
+            S.PATH.mute = True
+            try:
+                hT.compute(insT)
+                if ana_keys:
+                    hT.partials(insT)
+            finally:
+                S.PATH.mute = False
             jA = hA.partials(ins) if ana_keys else None
         except S.OutsideFragment:
             raise
